@@ -89,7 +89,7 @@ theorem initBaseTable_facts :
 
 theorem covered :
     Gen.TblOps256.covered = ["lookupTable.Init", "lookupTable.SelectInto", "initBaseTable",
-      "PointJacobian.ScalarMult"] := by
+      "PointJacobian.ScalarMult", "PointJacobian.ScalarBaseMult"] := by
   ptops_decide "C15TblOps.covered"
 
 end C15TblOps
